@@ -2,14 +2,17 @@
 (* S->C for C18 (i): TLC explores the cursor state machine of MerkleProof on   *)
 (* small trees (<= 6 rows), including DAGs with a shared sub-tree and nodes      *)
 (* whose two children are structurally identical (as one row and as two equal    *)
-(* rows).  Every behaviour that ends with CreateProof is emitted with the prune  *)
-(* set and the proof the specification requires; the Go side replays the         *)
-(* operations through boc.MerkleProver / Cursor on three builds of the tree      *)
-(* (distinct pointers, shared pointers, parsed from a bag).                      *)
+(* rows).  A behaviour is a SEQUENCE of requests served by one prover: Cursor(), *)
+(* Ref/Up/Prune, CreateProof, again Cursor() ... (each session starts with an    *)
+(* empty prune set).  It is emitted as a script with, per CreateProof, the hash  *)
+(* of the proof the specification requires; the Go side replays the script       *)
+(* through ONE boc.MerkleProver on three builds of the tree (distinct pointers,   *)
+(* shared pointers, parsed from a bag).                                          *)
 (* Visits are in depth-first order (Ref(i) only to a position after the ones     *)
 (* already visited from this node; no second Prune of a path) unless Free.       *)
 EXTENDS MerkleProof, Json
-CONSTANTS MaxOps,    \* longest operation sequence before CreateProof
+CONSTANTS MaxOps,    \* number of Ref/Up/Prune operations in a behaviour (all requests together)
+          MaxReq,    \* number of requests (cursor sessions, each ended by CreateProof) served by ONE prover
           Free       \* TRUE: no depth-first discipline (any enabled operation)
 
 C(b, r) == [b |-> b, x |-> Ordinary, m |-> 0, r |-> r]
@@ -29,34 +32,42 @@ Trees == <<
   << C(A, <<2, 3>>), C(B, <<4, 5>>), C(B, <<5, 4>>), C(D, <<>>), C(F, <<>>) >>  \* 11 mirrored children (not equal)
 >>
 
-VARIABLES s, nxt, hist, done
-vars == <<s, nxt, hist, done>>
-\* nxt: for every prefix of the current path (index Len+1), the smallest reference position still allowed below it
-OpRec(o, i) == [op |-> o, i |-> i]
+VARIABLES s, nxt, hist, exph, cur, open, nops, done
+vars == <<s, nxt, hist, exph, cur, open, nops, done>>
+\* s: cursor state of the open session; nxt: for every prefix of its path (index Len+1) the smallest reference position
+\* still allowed below it; hist: the script (events as the harness replays and records them); exph: for every Create the
+\* hash of the proof the specification requires; cur: id of the open session; nops: Ref/Up/Prune operations so far
+Ev(k, i) == [k |-> k, c |-> cur, i |-> i]
 Init == /\ \E t \in 1..Len(Trees) : s = CInit(Trees[t], 1)
-        /\ nxt = <<1>> /\ hist = <<>> /\ done = FALSE
+        /\ nxt = <<1>> /\ cur = 1 /\ hist = << [k |-> "Cursor", c |-> 1, i |-> 0] >> /\ exph = <<>>
+        /\ open = TRUE /\ nops = 0 /\ done = FALSE
 DoRef(i) == /\ RefEnabled(s, i) /\ (Free \/ i >= nxt[Len(nxt)])
             /\ s' = Ref(s, i)
             /\ nxt' = Append([nxt EXCEPT ![Len(nxt)] = i + 1], 1)
-            /\ hist' = Append(hist, OpRec("ref", i - 1))
+            /\ hist' = Append(hist, Ev("Ref", i - 1))
 DoUp == /\ UpEnabled(s) /\ s' = Up(s)
         /\ nxt' = SubSeq(nxt, 1, Len(nxt) - 1)
-        /\ hist' = Append(hist, OpRec("up", 0))
+        /\ hist' = Append(hist, Ev("Up", 0))
 DoPrune == /\ (Free \/ s.path \notin s.ps)
            /\ s' = Prune(s) /\ nxt' = nxt
-           /\ hist' = Append(hist, OpRec("prune", 0))
-Finish == /\ done' = TRUE /\ UNCHANGED <<s, nxt, hist>>
-Next == /\ ~done
-        /\ \/ Len(hist) < MaxOps /\ ((\E i \in 1..4 : DoRef(i)) \/ DoUp \/ DoPrune) /\ done' = done
-           \/ Finish
+           /\ hist' = Append(hist, Ev("Prune", 0))
+Op == /\ open /\ nops < MaxOps /\ ((\E i \in 1..4 : DoRef(i)) \/ DoUp \/ DoPrune)
+      /\ nops' = nops + 1 /\ UNCHANGED <<exph, cur, open, done>>
+\* CreateProof on the open session: the proof is Proof(T, R, prune set of THIS session)
+Create == /\ open /\ open' = FALSE
+          /\ hist' = Append(hist, Ev("Create", 0))
+          /\ exph' = Append(exph, BytesToHex(ReprHash(InfoTable(CreateProof(s))[1])))
+          /\ UNCHANGED <<s, nxt, cur, nops, done>>
+\* the same prover serves another request: a new cursor session starts with an empty prune set
+NewCursor == /\ ~open /\ cur < MaxReq /\ open' = TRUE /\ cur' = cur + 1
+             /\ s' = CInit(s.T, 1) /\ nxt' = <<1>>
+             /\ hist' = Append(hist, [k |-> "Cursor", c |-> cur + 1, i |-> 0])
+             /\ UNCHANGED <<exph, nops, done>>
+Finish == /\ ~open /\ done' = TRUE /\ UNCHANGED <<s, nxt, hist, exph, cur, open, nops>>
+Next == ~done /\ (Op \/ Create \/ NewCursor \/ Finish)
 Spec == Init /\ [][Next]_vars
 
 TableJson(T) == [i \in 1..Len(T) |-> [b |-> BitsToStr(T[i].b), x |-> T[i].x, m |-> T[i].m, r |-> [j \in 1..Len(T[i].r) |-> T[i].r[j] - 1]]]
-PathStr(p) == FoldLeft(LAMBDA a, i : StrCat(a, ToString(i - 1)), "/", p)
-Vector == LET PT == CreateProof(s)
-          IN [t |-> "walk", cells |-> TableJson(s.T), roots |-> <<0>>, ops |-> hist,
-              ps |-> SetToSeq({PathStr(p) : p \in s.ps}),
-              exphash |-> BytesToHex(ReprHash(InfoTable(PT)[1])),       \* hash of the proof under the occurrence reading
-              expcells |-> Len(PT), wf |-> WellFormed(PT)]
+Vector == [t |-> "walk", cells |-> TableJson(s.T), roots |-> <<0>>, script |-> hist, exphash |-> exph, reqs |-> cur]
 Emit == done => PrintT(<<"VEC", ToJson(Vector)>>)
 =============================================================================
